@@ -461,6 +461,7 @@ func c13(r *core.Run) {
 	r.Rule("K3", "nil vs empty key: index maintenance skips an index only when the key is truly unchanged (both nil, or both non-nil and equal): bytes.Equal is evaluated only under both-non-nil", 1)
 	r.Rule("Q1", "maintenance funnel: updateIndex is called only from the func literal handed to the task queue's Do in the change handler; the change handler is registered on the store by the constructor; Flush calls the queue's Flush", 3)
 	r.Rule("D1", "iteration direction: when the iterator options' Reverse can be true, the key passed to Seek is not the very value passed to ValidForPrefix", 1)
+	r.Rule("B1", "before-values are the stored values (shared with C11.K2): the value cached in a store transaction is dead or refreshed by every mutation; index deltas are computed from the before-value a mutation reports, so a stale one deletes the wrong entry and orphans the right one", 1)
 	r.Rule("W1", "window guards: limit==0 returns an empty result before the database is touched; a negative limit is replaced by max-int", 2)
 
 	// K1
@@ -537,6 +538,7 @@ func c13(r *core.Run) {
 	}
 	r.Check(nameLenOK, "K1", core.FuncName(fc), "reader-strips-len(name)+1", p.Pos(fc.Pos()), "filter keys start after name and ':'", "the reader does not strip exactly len(name)+1 bytes before the key")
 
+	c11CacheCoherence(r, "B1", rel)
 	// K2 / Q1 in querystore
 	ui := methodNamed(p, rel, "QueryStore", "updateIndex")
 	hc := methodNamed(p, rel, "QueryStore", "handleChange")
@@ -814,6 +816,7 @@ func c14(r *core.Run) {
 
 	r.Rule("N1", "notify after commit, only on change: the query-change fan-out is dominated by the index transaction's err==nil edge, the empty-error-message edge and the updated flag; the flag is set true only where a key changed", 2)
 	r.Rule("N2", "unchanged-key predicate: bytes.Equal on index keys is evaluated only when both keys are known non-nil, a both-nil test exists, and index maintenance and affectsQuery use the same predicate shape; affectsQuery returns wasMatch||isMatch", 4)
+	r.Rule("B1", "before-values are the stored values (shared with C11.K2): the value cached in a store transaction is dead or refreshed by every mutation; the unchanged-key test and affectsQuery compare the reported before-value with the new one, so a stale before-value suppresses or misdirects notifications", 1)
 	r.Rule("O1", "mutation order per id: index maintenance - which applies one id's key deltas and runs the query-change callbacks - is executed only as a task handed to the blocking FIFO TaskQueue.Do by the store's change handler (no direct call, TryDo fallback or goroutine that could let a later delta overtake an earlier one)", 1)
 	r.Rule("N3", "query handler: a reset flag yields a reset event (resources) or a fresh result reply (query requests) and no per-event dispatch; both event dispatchers handle the same event names; errors are returned / replied", 3)
 
@@ -823,6 +826,7 @@ func c14(r *core.Run) {
 		r.Unres("N1", "updateIndex/affectsQuery", "missing")
 		return
 	}
+	c11CacheCoherence(r, "B1", rel)
 	queuedTaskRule(r, "O1", ui, "deltas and notifications of one id are applied in mutation order by the single FIFO worker", "index maintenance / query-change notification can run outside the FIFO task queue: a later mutation's delta and callbacks can overtake an earlier one of the same id (subscribers end with a stale result, the index keeps or loses entries)")
 	// N1
 	var upd ssa.CallInstruction
